@@ -1,11 +1,12 @@
 SPECIFICATION Spec
 CONSTANTS
-  Addr <- Addr2
-  Gaps <- GapsFixed2
+  Addr <- Addr3
+  Gaps <- GapsFixed3
   T = 10
-  D = 1
-  MaxEvents = 2
-  MaxFails = 1
+  D = 0
+  MaxEvents = 3
+  MaxFails = 0
+  Extra = "start"
   Backoff = TRUE
   Closed = FALSE
   ObserveCb = FALSE
